@@ -185,13 +185,6 @@ package client
 //@   ensures [C18] $trlen == old($trlen) + 1 && $tr[old($trlen)] == ev("send", conn.out, cutnl("PONG :" + message))
 //@ end
 
-//@ func (*Conn).Authenticate
-//@   property C08
-//@   safety C08
-//@   requires conn != nil
-//@   modifies $tr
-//@   ensures sendsOnly($tr, old($trlen), $trlen, conn.out, "AUTHENTICATE")
-//@ end
 
 //@ func (*Conn).Quit
 //@   property C08
@@ -1184,3 +1177,96 @@ package client
 // State handlers are registered in the internal set and nowhere else (C05).
 //@ closure [C05] callers (*Conn).addSTHandlers in (*Conn).EnableStateTracking
 //@ closure [C05] field_access Conn.stRemovers in (*Conn).addSTHandlers, (*Conn).delSTHandlers, Client
+
+// ---------------------------------------------------------------------------
+// C19: capability negotiation
+
+//@ pred plainNames(s []string) := forall i int :: 0 <= i && i < len(s) ==> !(len(s[i]) >= 1 && s[i][0] == '-')
+//@ pred inList(k int, s []string) := exists i int :: 0 <= i && i < len(s) && sid(s[i]) == k
+// what the client wants: the built-in defaults, sasl when SASL is configured, and the configured list
+//@ pred wanted(conn *Conn, k int) := inList(k, defaultCaps) || (conn.cfg.Sasl != nil && k == sid("sasl")) || inList(k, conn.cfg.Capabilites)
+//@ pred sendsExactly(tr trace, at int, ch ref, line string) := tr[at] == ev("send", ch, cutnl(line))
+
+//@ func (*capSet).Intersect
+//@   property C19
+//@   safety C02
+//@   requires capOK(c) && capOK(other) && c != other
+//@   modifies entries(c.caps), $held, $tr
+//@   ensures $held === old($held) && c.caps == old(c.caps)
+//@   ensures forall k int :: has(dom(c.caps), k) <==> (old(has(dom(c.caps), k)) && has(dom(other.caps), k) && vals(other.caps)[k])
+//@   ensures forall k int :: has(dom(c.caps), k) ==> vals(c.caps)[k] == old(vals(c.caps)[k])
+//@   loop 0:
+//@     invariant held(c.mu) == 1 && $held === upd(old($held), c.mu, 1) && c.caps == old(c.caps) && c.caps != nil && capOK(other) && other != c
+//@     invariant forall k int :: has(dom(c.caps), k) <==> (old(has(dom(c.caps), k)) && (has(visited(), k) ==> (has(dom(other.caps), k) && vals(other.caps)[k])))
+//@     invariant vals(c.caps) === old(vals(c.caps))
+//@     invariant forall k int :: has(visited(), k) ==> old(has(dom(c.caps), k))
+//@ end
+
+//@ func (*capSet).Slice
+//@   property C19
+//@   safety C02
+//@   requires capOK(c)
+//@   modifies $held, $tr, elems(result)
+//@   ensures $held === old($held)
+//@   ensures forall k int :: has(dom(c.caps), k) <==> inList(k, result)
+//@   loop 0:
+//@     invariant held(c.mu) == 2 && $held === upd(old($held), c.mu, 2) && c.caps != nil
+//@     invariant forall k int :: (has(dom(c.caps), k) && has(visited(), k)) <==> inList(k, capSlice)
+//@     invariant len(capSlice) == 0 || fresh(capSlice)
+//@ end
+
+//@ func capabilitySet
+//@   property C19
+//@   safety C02
+//@   ensures result != nil && fresh(result) && result.caps != nil && fresh(result.caps) && held(result.mu) == 0 && dom(result.caps) === emptyset()
+//@ end
+
+// getRequestCapabilities: exactly the wanted names, all enabled.
+//@ func (*Conn).getRequestCapabilities
+//@   property C19
+//@   safety C02
+//@   requires connOK(conn) && plainNames(defaultCaps) && plainNames(conn.cfg.Capabilites)
+//@   modifies $held, $tr, capSet.caps, entries(result.caps)
+//@   ensures $held === old($held)
+//@   ensures capOK(result) && fresh(result)
+//@   ensures forall k int :: has(dom(result.caps), k) <==> wanted(conn, k)
+//@   ensures forall k int :: has(dom(result.caps), k) ==> vals(result.caps)[k]
+//@ end
+
+// After a NAK, after SASL success / failure / unsupported mechanism: CAP END, exactly once.
+//@ func (*Conn).handleCapNak
+//@   property C19
+//@   safety C02
+//@   requires conn != nil
+//@   modifies $tr
+//@   ensures $trlen == old($trlen) + 1 && sendsExactly($tr, old($trlen), conn.out, "CAP " + "END")
+//@ end
+//@ func (*Conn).h_903
+//@   property C19
+//@   safety C02
+//@   requires conn != nil
+//@   modifies $tr
+//@   ensures $trlen == old($trlen) + 1 && sendsExactly($tr, old($trlen), conn.out, "CAP " + "END")
+//@ end
+//@ func (*Conn).h_904
+//@   property C19
+//@   safety C02
+//@   requires conn != nil
+//@   modifies $tr, $log
+//@   ensures $trlen == old($trlen) + 1 && sendsExactly($tr, old($trlen), conn.out, "CAP " + "END")
+//@ end
+//@ func (*Conn).h_908
+//@   property C19
+//@   requires conn != nil && line != nil && len(line.Args) >= 2
+//@   modifies $tr, $log
+//@   ensures $trlen == old($trlen) + 1 && sendsExactly($tr, old($trlen), conn.out, "CAP " + "END")
+//@ end
+
+//@ func (*Conn).Authenticate
+//@   property C08
+//@   safety C08
+//@   requires conn != nil
+//@   modifies $tr
+//@   ensures sendsOnly($tr, old($trlen), $trlen, conn.out, "AUTHENTICATE")
+//@   ensures [C19] $trlen == old($trlen) + 1 && sendsExactly($tr, old($trlen), conn.out, "AUTHENTICATE " + message)
+//@ end
